@@ -91,7 +91,7 @@ Print Assumptions C11_sig_values_sender.
     In particular no V + k*256 or V + 2^64 alias of a genuine signature is accepted. *)
 Theorem C11_recover_plain_v_range :
   forall oracle h r s vb a, recover_plain oracle h r s vb = SOk a -> (Z.abs vb = 27 \/ Z.abs vb = 28)%Z.
-Proof. exact recover_plain_v_range. Qed.
+Proof. exact (fun oracle => recover_plain_v_range oracle (fun b => b)). Qed.
 Print Assumptions C11_recover_plain_v_range.
 
 Theorem C11_sender_v_homestead :
@@ -148,6 +148,19 @@ Theorem C11_vote_sign_then_verify :
     vote_verify oracle H chain addr addr v sig = VOk.
 Proof. exact vote_sign_then_verify. Qed.
 Print Assumptions C11_vote_sign_then_verify.
+
+(** remark, by design: VerifySignature sees a 65-byte string only through r, s and the recovery
+    byte with bit 2 cleared (recovery bytes 4/5 alias 0/1); together with C11_binding an alias is
+    accepted for the same message and signer only — the property text restricts "malleable /
+    malformed values are rejected" to transactions. *)
+Theorem C11_signature_recid_alias_remark :
+  forall oracle addr h sig sig',
+    len sig = len sig' -> firstn 32 sig = firstn 32 sig' ->
+    firstn 32 (skipn 32 sig) = firstn 32 (skipn 32 sig') ->
+    N.land (nth 64 sig 0) 251 = N.land (nth 64 sig' 0) 251 ->
+    verify_signature oracle addr h sig = verify_signature oracle addr h sig'.
+Proof. exact verify_signature_alias. Qed.
+Print Assumptions C11_signature_recid_alias_remark.
 
 (** composition: a signature string accepted for a vote is accepted for no other chain id or
     vote and under no other address, unless the two sign byte strings collide under H *)
